@@ -13,7 +13,7 @@ ks=[k for k in (m.get('checks') or {}) if k!=m['property']]
 print(','.join(ks))")
   rm -rf /tmp/seedsrc_$id; cp -r seeded/$id /tmp/seedsrc_$id
   if [ -n "$props" ]; then extra="--props $props"; else extra=""; fi
-  timeout 5000 python3 tools/seed_verify.py /tmp/seedsrc_$id $id $extra > build/seed_$id.out 2>&1
+  timeout 5000 python3 tools/seed_verify.py /tmp/seedsrc_$id $id $extra $SEED_MODE > build/seed_$id.out 2>&1
   rm -rf /tmp/seedsrc_$id
   python3 - "$id" <<'PY' | tee -a build/seed_sweep.log
 import json,sys
